@@ -120,6 +120,17 @@ def scenarios(which):
             r = c2b(1)
             if r != ("v3", 1):
                 return dict(violation=True, cases=cases, what="swapped code object not noticed: %r" % (r,), witness="__code__ swap")
+            # an edit that only changes indentation changes the meaning
+            mem6 = Memory(os.path.join(root, "c6"), verbose=0)
+            w1 = define("def w(n):\n    out = []\n    for i in range(n):\n        pass\n    out.append(n)\n    return out\n", "w", "modc12w")
+            cases += 1
+            assert mem6.cache(w1)(3) == [3]
+            fresh_process_state()
+            w2 = define("def w(n):\n    out = []\n    for i in range(n):\n        pass\n        out.append(n)\n    return out\n", "w", "modc12w")
+            r = mem6.cache(w2)(3)
+            cases += 1
+            if r != [3, 3, 3]:
+                return dict(violation=True, cases=cases, what="re-indented definition returned the old definition's value %r" % (r,), witness="indentation-only edit")
             # K5: older still-referenced definition (same session)
             mem5 = Memory(os.path.join(root, "c5"), verbose=0)
             a = define("def k(x):\n    return ('a', x)\n", "k", "modk5")
